@@ -424,6 +424,12 @@ def ref_cmp(vm, m, callee, args):
     return Or(conds) if conds else BoolVal(False)
 
 
+@native(r'^std::mem::size_of::<(u8|i8|u16|i16|u32|i32|u64|i64|usize|isize|bool)>$', 'size_of a primitive')
+def size_of(vm, m, callee, args):
+    t = re.search(r'<(\w+)>$', callee).group(1)
+    return mk_int({'u8': 1, 'i8': 1, 'bool': 1, 'u16': 2, 'i16': 2, 'u32': 4, 'i32': 4, 'u64': 8, 'i64': 8, 'usize': 8, 'isize': 8}[t], 'usize')
+
+
 @native(r'^<&?bool as (std::ops::)?Not>::not$', 'bool negation')
 def bool_not(vm, m, callee, args):
     return Not(bool_(dv(vm, args[0])))
